@@ -39,10 +39,10 @@ fn main() {
 
     let tier = check.tier();
 
-    check.run_prop("programs", 16, tier.pick(25_000, 400_000), c04::case_strategy(), run);
+    check.run_prop("programs", 16, tier.pick(25_000, 400_000), c04::case_strategy, run);
 
     if tier == Tier::Thorough {
-        check.run_prop("programs-uniform-size", 16, 400_000, c04::case_strategy_uniform(), run);
+        check.run_prop("programs-uniform-size", 16, 400_000, c04::case_strategy_uniform, run);
     }
 
     // Every frame size in turn (quick: every size below 160 and every 8th above; thorough: all)
